@@ -134,7 +134,7 @@ Section provenance.
   Proof.
     intros IHv IHa cx.
     intros p src st er H. rewrite eval_v_S in H. destruct p as [| |al q|m|c args fl|t a|ini tp a|el a|ini t cases dflt].
-      + discriminate.
+      + destruct (plain src); discriminate.
       + discriminate.
       + destruct (eval_v e M F f cx q src st) as [[r st1]| | | |] eqn:E; cbn [obind] in H; try discriminate.
         * destruct al; discriminate.
